@@ -254,7 +254,7 @@ class QSpec:
             if item[0] == "tab" and item[3] is None and T(item) in base:
                 # documented: joining a base table again without alias gets the first free name "<name>2", "<name>3", ...
                 names = {(t[3] or t[1]) if t[0] == "tab" else t[1]
-                         for t in list(self.frm) + list(self.withs) + ([self.update] if self.update is not None else [])
+                         for t in list(self.frm) + ([self.update] if self.update is not None else [])   # not the WITH queries
                          + [j[0] for j in self.joins]}
                 n = 2
                 while "%s%d" % (item[1], n) in names:
